@@ -69,6 +69,14 @@ func TestVerif_C05(t *testing.T) {
 		stsMode := []string{"none", "testing", "enforce"}[r.intn(3)]
 		nMX := 1 + r.intn(2)
 		bias := r.chance(35)
+		biasTLS := false
+		if !bias && r.chance(20) { // an unauthenticated fallback of one candidate must not carry over to the next
+			biasTLS, nMX = true, 2
+			local = &localPolicy{minTLSLevel: module.TLSAuthenticated, minMXLevel: module.MXNone}
+			if r.chance(40) {
+				local.minTLSLevel = module.TLSEncrypted
+			}
+		}
 		if bias && r.chance(50) { // the MX level has to be earned by the candidate that is used
 			pMtasts, stsMode, nMX = true, "testing", 2
 			if r.chance(60) {
@@ -102,6 +110,12 @@ func TestVerif_C05(t *testing.T) {
 					if pDane {
 						m.dane = []string{"DMismatch", "DLookupFail", "DMismatch", "DNone"}[r.intn(4)]
 					}
+				}
+			}
+			if nMX == 2 && biasTLS {
+				m.kind, m.goodName = v5TLS, false
+				if i == 1 && r.chance(30) {
+					m.goodName = true
 				}
 			}
 			m.ip = fmt.Sprintf("127.0.0.%d", i+1)
